@@ -73,6 +73,12 @@ CHECKS = {
    note="Trusted: TLC, hook on each probe, the scripted transporter. Timing variables shrunk through verif-only setters; tcp probes only; traffic interruption of unchanged entries is judged by the absence of Close/New messages for them.",
    technique="TLA+ spec FrpcProxies model-checked with TLC + trace validation of real client-side executions (Trace_FrpcProxies)",
    design="4 (C19), 3.8"),
+ "C17": dict(
+   level="exploration",
+   text="Codec specifies the framed reader as a machine over input classes with the expected outcome and the number of bytes consumed per class, the 18-entry registry and the allocation bound; the real msg.ReadMsg is fed every class for every type byte through a counting reader, the real encoder is compared byte for byte with golden encodings of the released protocol, generated values are round-tripped, random byte strings are decoded, and malformed / unexpected first messages are sent to a real frps next to a healthy session; TLC checks every observation against the specification (Trace_Codec). Declared exploration: the quantifier over all field values and all byte strings is sampled, the specification supplies case space and oracle.",
+   note="Trusted: TLC, the counting reader, the golden file produced from the pinned tree. decode(encode(m)) = m over all values is encode/decode fidelity, which this family does not enumerate.",
+   technique="TLA+ spec Codec as case-space + oracle; enumerated frame classes and golden encodings replayed on the real codec, judged by TLC (Trace_Codec)",
+   design="4 (C17), 3.11"),
 }
 
 hooks_commits = subprocess.run("git -C /repo log --format=%h --grep='^verif:' --reverse", shell=True, capture_output=True, text=True).stdout.split()
